@@ -295,3 +295,140 @@ PROPS["C03"]["r"]["quick"] = PROPS["C03"]["r"]["quick"] + _handler_units("c03", 
 PROPS["C03"]["r"]["thorough"] = PROPS["C03"]["r"]["thorough"] + _handler_units("c03", "thorough")
 PROPS["C03"]["files"] = PROPS["C03"]["files"] + ["src/solve/solout.rs"]
 PROPS["C12"]["outside"] = ["bit-identity of whole runs with/without output options is not decided directly: it follows from (a) the handler never modifies x/y and returns Continue (decided here) and (b) solve_ivp passing t_eval/dense_output/events only to the handler (one-line reading of solve_ivp.rs, listed as an assumption)"]
+
+
+def _c04_r(tier):
+    US = _rs()
+    combos = _EXPL_Q if tier == "quick" else _EXPL_T
+    units = [US.c03_times(m, b) for m, b in combos]
+    units += [US.c04_guard(m, b) for m, b in combos if m in ("DOPRI5", "DOP853")]
+    return units
+
+
+_C04_K = _names_from_macro("c04", "c04") + _names_from_macro("c04", "c04_guard")
+PROPS["C04"] = {
+    "level": "other",
+    "r": {"quick": _c04_r("quick"), "thorough": _c04_r("thorough")},
+    "k": {"quick": [n for n in _C04_K if "dop853" not in n and "back" not in n], "thorough": _C04_K},
+    "caps": {"quick": {"timeout_s": 900, "mem_gb": 12}, "thorough": {"timeout_s": 3600, "mem_gb": 14}},
+    "files": _ST_FILES, "functions": ["RK4/RK23/DOPRI5/DOP853::solve"],
+    "explanation": ("Termination is an induction the solver does not run; what is decided are its premises. R (inductive step, every iteration, NaN-free): a rejected trial shrinks |h| by >= 5%, "
+                    "an accepted step moves x toward xend, the loop-head invariant is preserved, the DOPRI-family underflow guard ends the run. K (Kani/CBMC, bit-precise, first trial, concrete time grid, "
+                    "right-hand side may return NaN/inf): a rejected first trial -- including a NaN/inf error norm -- is retried with |h'| <= 0.95|h| pointing toward xend; Success implies finite states; "
+                    "no panic; RK23's underflow guard fires for a step 2^-60 |x0|."),
+    "assumptions": _ST_ASSUME + ["K: n=1, x0=0,xend=1 (and mirror), first trial only, powf contract model, paths longer than the call budget cut"],
+    "stubs": ["f64::powf -> common::powf_model", "f64::powi -> common::powi_model", "IVP::ode -> nondeterministic incl. NaN/inf"],
+    "bounds": "R: all iterations (inductive), normal range; K: first trial of the run",
+    "outside": ["the induction to termination itself (ranking argument written in DESIGN.md)", "Radau, BDF", "NaN arriving after the first trial (same code path; not re-unrolled)"],
+}
+
+
+# ------------------------------------------------------------------------------- implicit-method kernels, C06 extras
+def _ri():
+    import sys
+    if VERIF not in sys.path:
+        sys.path.insert(0, VERIF)
+    from rsym import units_impl as UI
+    return UI
+
+
+for _t in ("quick", "thorough"):
+    PROPS["C02"]["r"][_t] = PROPS["C02"]["r"][_t] + [_ri().c02_radau_constants]
+    _combos = _EXPL_Q if _t == "quick" else _EXPL_T
+    PROPS["C06"]["r"][_t] = (PROPS["C06"]["r"][_t] + [_ri().c06_radau_dense, _ri().c06_bdf_rescaling]
+                             + [_rs().c06_interp_span(m, b) for m, b in _combos]
+                             + [_rh().c06_dense_collection(2), _rh().c06_dense_collection(3, backward=True)]
+                             + [_rh().c06_lookup(2), _rh().c06_lookup(3, backward=True)])
+PROPS["C02"]["files"] = PROPS["C02"]["files"] + ["src/methods/radau.rs"]
+PROPS["C02"]["functions"] = PROPS["C02"]["functions"] + ["radau.rs constants (nodes, T/TI, eigenvalues, estimator weights)"]
+PROPS["C02"]["outside"] = ["Radau's Newton iteration path (data-dependent convergence control): only its constants and loop-free kernels are decided",
+                           "'accepted steps grow like tol^(-1/q)' (whole-run)", "coefficient errors below ~1e-13 relative"]
+PROPS["C06"]["files"] = PROPS["C06"]["files"] + ["src/methods/radau.rs", "src/methods/bdf.rs", "src/solve/solout.rs", "src/solve/cont.rs", "src/solve/solution.rs", "src/dense.rs"]
+PROPS["C06"]["functions"] = ["dense-output blocks + interpolate() of RK4/RK23/DOPRI5/DOP853", "RADAU dense block + RADAU::interpolate", "bdf.rs change_d/compute_r/matmul + BDF::interpolate",
+                             "accepted-step tail of each explicit solve() (interpolant handed to the callback)", "DefaultSolOut dense collection", "ContinuousOutput::from_segments/t_span/evaluate/find_segment", "Solution::sol"]
+PROPS["C06"]["explanation"] = ("Endpoint identities of every step interpolant (explicit methods: extracted from the executed step; Radau: the four collocation interpolation conditions on the AST slice of its dense block; "
+                               "BDF: change_d preserves the interpolating polynomial for orders 1..5 and all factors), the interpolant handed to the callback spans exactly the accepted step bit-for-bit (term identity), "
+                               "the handler collects exactly one segment per accepted step whatever its length, and the segment lookup / range errors of ContinuousOutput and Solution::sol on symbolic contiguous segments.")
+PROPS["C06"]["bounds"] = "n=1; one step (identities) / 2-3 contiguous segments (lookup); exact reals for identities, reals with rounding for lookup comparisons"
+PROPS["C06"]["outside"] = ["float continuity beyond rounding", "BDF endpoint identities after the accepted-step update of the difference array", "zero-length run (constant segment)"]
+
+
+PROPS["C15"] = {
+    "level": "model_checking",
+    "k": {"quick": _names_from_macro("c15", "mass_default") + _names_from_macro("c15", "storage_indep") + ["c15_fd_jacobian_linear_n2"],
+          "thorough": _names_from_macro("c15", "mass_default") + _names_from_macro("c15", "storage_indep") + ["c15_fd_jacobian_linear_n2"]},
+    "files": ["src/ivp.rs", "src/matrix/base.rs", "src/matrix/index.rs", "src/methods/radau.rs"],
+    "functions": ["IVP::mass (default)", "IVP::jac (default finite differences)", "Matrix::from_storage + Index/IndexMut"],
+    "explanation": "Kani/CBMC over the compiled crate: the trait's default mass leaves the identity in the pre-allocated matrix of every storage kind; Full and Banded storage holding the same in-band entries read back bit-identical entries at a symbolic (i,j) (what Radau/BDF read through Index, so identical float operations follow); the default finite-difference Jacobian on a linear RHS with symbolic small-integer coefficients uses n+1 evaluations at time x and reproduces the coefficients.",
+    "bounds": "n<=3, concrete band profiles, symbolic entries; FD Jacobian n=2, coefficients in [-3,3], y in [-2,2]^2",
+    "assumptions": ["bit-identical trajectories for different storages follow from identical reads (argument, not a query)"],
+    "outside": ["agreement of M y' = f with y' = M^-1 f within tolerance, DAE constraint residuals, analytic-vs-FD trajectories (whole-run numerics)", "Radau's E1/E2 assembly (not interpreted)"],
+    "stubs": [],
+}
+PROPS["C20"] = {
+    "level": "model_checking",
+    "features": ("python",),
+    "target": "kani_py",
+    "k": {"quick": ["c20_grouping_n3_len1", "c20_grouping_n3_len2", "c20_grouping_n4_len2"], "thorough": _names_from_macro("c20", "grouping")},
+    "files": ["src/python/sparsity.rs"],
+    "functions": ["python::sparsity::group_columns (through the verif-hooks forwarder)"],
+    "explanation": "Kani/CBMC over the crate built with --features python (PYO3_NO_PYTHON=1): for every sparsity pattern with the stated fixed column lengths, every column gets a group below n_groups and two columns sharing a row never share a group. ONLY the sparsity-grouping clause of C20 is decided; nothing about the Python-visible result is.",
+    "bounds": "n=3 (1-2 non-zeros per column), n=4 (2-3 non-zeros per column); row indices symbolic",
+    "assumptions": ["column lists of fixed length per harness"],
+    "outside": ["the whole PyO3/NumPy binding layer (transposition, status mapping, args forwarding, option parsing, sol() shapes): not encodable, not decided", "sparse_jacobian_fd values"],
+    "stubs": [],
+}
+
+
+# ------------------------------------------------------------------------------- C01 / C13 (R-exact)
+def _rc():
+    import sys
+    if VERIF not in sys.path:
+        sys.path.insert(0, VERIF)
+    from rsym import units_c01 as UC
+    return UC
+
+
+def _c01(tier):
+    UC, US = _rc(), _rs()
+    u = [UC.c01_radau_tolerance, UC.c01_acceptance("RK23"), UC.c01_acceptance("DOPRI5"), UC.c01_acceptance("RK23", 2),
+         US.c03_prefix("RK23", False, with_first_step=False), US.c03_prefix("DOPRI5", False, with_first_step=False)]
+    if tier != "quick":
+        u += [UC.c01_acceptance("DOPRI5", 2), US.c03_prefix("DOP853", False, with_first_step=False), US.c03_prefix("RK23", True, with_first_step=False)]
+    return u
+
+
+def _c13(tier):
+    UC = _rc()
+    u = [UC.c01_radau_tolerance, UC.c13_scalar_vector("RK23"), UC.c13_scalar_vector("DOPRI5"), UC.c13_reflection("RK4"), UC.c13_reflection("RK23"),
+         UC.c13_reflection("DOPRI5"), UC.c13_duplicated("RK23"), UC.c13_duplicated("DOPRI5")]
+    if tier != "quick":
+        u += [UC.c13_reflection("DOP853"), UC.c13_scalar_vector("DOP853")]
+    US = _rs()
+    u += [US.c03_times("RK23", True), US.c03_times("DOPRI5", True)] if tier != "quick" else [US.c03_times("RK23", True)]
+    return u
+
+
+PROPS["C01"] = {
+    "level": "other", "r": {"quick": _c01("quick"), "thorough": _c01("thorough")},
+    "files": ["src/methods/rk23.rs", "src/methods/dopri5.rs", "src/methods/radau.rs", "src/methods/mod.rs"],
+    "functions": ["error-estimation blocks and accept tests of RK23/DOPRI5", "RADAU::solve tolerance adjustment", "Tolerance Index/IndexMut", "hinit (through the solve() prefix)"],
+    "explanation": ("ONLY the per-step error-control contract is decided, not global accuracy: (1) from the symbolically executed step, z3 proves for all y,h,k and positive tolerances that an accepted step "
+                    "has |error estimate_i| <= sqrt(n)(atol_i + rtol_i max(|y_i|,|y_new_i|)) (n = 1, 2); (2) Radau's tolerance transformation is applied exactly once per component for scalar and vector "
+                    "tolerances (the real Index/IndexMut impls of Tolerance are interpreted); (3) the automatic initial step respects max_step and the direction (prefix paths with first_step = None)."),
+    "assumptions": ["floats as reals", "the estimator's weights are C02's job"], "bounds": "n <= 2; one step",
+    "trusted_base": ["local error control + order => tolerance-proportional global error (standard theorem; NOT decided here)"],
+    "outside": ["any statement about the size of the global error, its proportionality to rtol, RK4's fourth-order convergence, t_eval accuracy: whole-run numerical claims, no solver query decides them",
+                "DOP853's mixed 5/3 error norm, Radau/BDF error norms"],
+}
+PROPS["C13"] = {
+    "level": "other", "r": {"quick": _c13("quick"), "thorough": _c13("thorough")},
+    "files": ["src/methods/rk4.rs", "src/methods/rk23.rs", "src/methods/dopri5.rs", "src/methods/dop853.rs", "src/methods/radau.rs", "src/methods/mod.rs"],
+    "functions": ["one main-loop iteration of each explicit solve(), forward and backward", "Tolerance Index/IndexMut", "RADAU tolerance adjustment"],
+    "explanation": ("Equivariance in EXACT arithmetic, decided by z3 on the symbolically executed step: scalar tolerance == constant vector (error test and new state identical; Radau's transformation too); "
+                    "time reflection (backward step applies the same tableau, interpolant, FSAL, and an error norm invariant under (x,h,k) -> (-x,-h,-k)); duplicated system (RMS norm of (e,e) equals that of (e)); "
+                    "plus the backward-direction inductive step of the step-size control (C03 units, backward)."),
+    "assumptions": ["floats as reals: a pure rounding asymmetry is not visible"], "bounds": "n <= 2; one iteration",
+    "outside": ["bit-for-bit identity of reflected/scaled runs (relational bit-precise queries: no verdict within reach, DESIGN section 3a)", "power-of-two state scaling", "implicit methods beyond Radau's tolerance handling",
+                "event-time mirroring beyond the handler's backward units (C08-C10)"],
+}
